@@ -24,6 +24,8 @@ pub broadcast proof fn lemma_given_none(r: Redirection, parent: Option<File>)
     ensures #[trigger] given(r, parent) == Given::Inherit
 { }
 pub broadcast group given_lemmas { lemma_given_pipe, lemma_given_file, lemma_given_none }
+pub open spec fn redir_obj(r: Redirection) -> Option<int> { match r { Redirection::File(f) => Some(f.obj@), Redirection::RcFile(f) => Some(f.obj@), _ => None } }
+pub open spec fn is_given_obj(o: int, c: PopenConfig) -> bool { redir_obj(c.stdin) == Some(o) || redir_obj(c.stdout) == Some(o) || redir_obj(c.stderr) == Some(o) }
 pub open spec fn bytes_of(v: Seq<OsString>) -> Seq<Seq<u8>> { Seq::new(v.len(), |i: int| v[i].b@) }
 pub open spec fn stage_of(argv: Seq<OsString>, c: PopenConfig, p: Popen) -> Stage {
     Stage { argv: bytes_of(argv), stdin: given(c.stdin, p.stdin), stdout: given(c.stdout, p.stdout), stderr: given(c.stderr, p.stderr), detached: c.detached, reaped: false }
@@ -45,6 +47,9 @@ impl Popen {
     #[verifier::external_body]
     pub fn create(argv: &Vec<OsString>, config: PopenConfig, Tracked(w): Tracked<&mut World>) -> (r: Result<Popen>)
         requires old(w).s.stages.len() < 0xffff_ffff,
+            // C08: a child inherits every descriptor that is not close-on-exec: the only inheritable library-created pipe ends around
+            // may be the ones this very child is given
+            forall|o: int| #[trigger] old(w).s.inheritable.contains(o) ==> is_given_obj(o, config), //[C08]
         ensures match r {
             Ok(p) => {
                 &&& final(w).s == (BW { stages: old(w).s.stages.push(stage_of(argv@, config, p)), ..old(w).s })
@@ -119,9 +124,21 @@ pub mod communicate {
 pub mod popen_m {
     use vstd::prelude::*;
     use super::*;
+    // crate::popen::make_pipe (= posix::pipe, Kani w_pipe): both ends are born close-on-exec
     #[verifier::external_body]
-    pub fn make_pipe() -> (r: io::Result<(File, File)>)
-        ensures r is Ok ==> peer(r->Ok_0.0.obj@) == r->Ok_0.1.obj@ && peer(r->Ok_0.1.obj@) == r->Ok_0.0.obj@
+    pub fn make_pipe(Tracked(w): Tracked<&mut World>) -> (r: io::Result<(File, File)>)
+        ensures match r {
+            Ok((rd, wr)) => peer(rd.obj@) == wr.obj@ && peer(wr.obj@) == rd.obj@ && rd.obj@ != wr.obj@ && !old(w).s.inheritable.contains(rd.obj@) && !old(w).s.inheritable.contains(wr.obj@)
+                && final(w).s == old(w).s,
+            Err(e) => final(w).s == old(w).s,
+        }
+    { unimplemented!() }
+    // crate::popen::set_inheritable (unit spawn / Kani w_set_inheritable)
+    #[verifier::external_body]
+    pub fn set_inheritable(f: &File, inheritable: bool, Tracked(w): Tracked<&mut World>) -> (r: io::Result<()>)
+        ensures
+            r is Ok && !inheritable ==> final(w).s == (BW { inheritable: old(w).s.inheritable.remove(f.obj@), ..old(w).s }),
+            r is Err || inheritable ==> final(w).s == old(w).s,
     { unimplemented!() }
 }
 
